@@ -66,6 +66,9 @@ func (r *runner[K]) step(op, spec int, mask int) {
 			vpAssume(!bad)
 			r.ins = append(r.ins, k)
 		}
+		if h.onInsert != nil {
+			h.onInsert(k)
+		}
 		vpApi()
 		vpActor(r.actor)
 		r.t.Insert(h.clone(k), v)
@@ -123,6 +126,10 @@ func mkRunner(kind, actor int) treeRunner {
 		return newRunner(hkSigned(func() int8 { return int8(vpU8()) }), actor)
 	case 12:
 		return newRunner(hkF32(), actor)
+	case 14:
+		// collation tree over strings; each tree has its own table of collation keys (the specs of the two trees use
+		// different universe entries)
+		return newRunner(hkColl(&collEnv{}, func(s string) string { return s }, func(k string) string { return k }), actor)
 	}
 	vpFail("unknown kind for hTwo")
 	return nil
